@@ -164,12 +164,24 @@ def run(ctx):
     max_steps = 40 if ctx.tier == "thorough" else 25
     while not ctx.out_of_time():
         n = int(rng.integers(1, 9)) if rng.random() < 0.9 else int(rng.integers(9, 15))
+        if rng.random() < 0.03:
+            n = int(rng.choice([16, 17, 20, 24, 31, 32, 33, 40, 64, 65]))     # wide circuits: size-dependent code paths
+            ctx.bucket("very_large_mode_count")
         if n >= 9:
             ctx.bucket("large_mode_count")
         b = Builder(rng, lw, loss_p=float(rng.choice([0.0, 0.15, 0.5])))
         c = lw.Circuit(n)
         log = [["circuit", n]]
         steps = int(rng.integers(1, max_steps + 1))
+        if rng.random() < 0.006 and n <= 8:
+            steps = int(rng.choice([300, 1030, 1500, 2100, 4200]))       # very deep programs: count-dependent code paths
+            ctx.bucket("very_long_program")
+            b.loss_p = 0.0                                               # (loss elements stay rare: each adds a mode)
+            b.allow = {"bs", "ps", "barrier", "swaps", "unitary"} if rng.random() < 0.5 else \
+                {"bs", "ps", "barrier", "swaps", "unitary", "loss"}
+            b.long_program = True
+            if steps > 1024:
+                ctx.bucket("program_longer_than_1024_components")
         check_at = set(rng.choice(steps, size=min(steps, 2), replace=False).tolist()) | {steps - 1}
         aborted = False
         for i in range(steps):
